@@ -72,10 +72,21 @@ HolderFns   == {"add", "substitute", "new",
                 "operator <<<e => @2 for e in @1>>>", "operator [[x, @3] for x in @1 also for y in @2]",
                 "operator (fn(q) do q += @2; q end)(@1)"}
 
+\* the operand a selecting syntax form hands on, where that is fixed (0: any of them)
+SelectedPlace(fn) ==
+  CASE fn = "operator @1[@2, @3]" -> 3                \* the default, never the container that was read
+    [] fn = "operator (fn(a, b = @2) b)(@1)" -> 2
+    [] fn = "operator do @1; @2 end" -> 2
+    [] fn = "operator do @1 finally @2 end" -> 1
+    [] fn = "operator (fn(x, y) x)(@1, @2)" -> 1
+    [] fn = "operator @1 !> identity()" -> 1
+    [] OTHER -> 0
+
 \* is / holds: the pool positions (among the arguments) whose container the
 \* result is / reaches below its top level
 ResultIndependent(fn, args, is, holds) ==
-  /\ is # {} => \/ fn \in SelectorFns \cup EchoFns
+  /\ is # {} => \/ /\ fn \in SelectorFns \cup EchoFns
+                   /\ SelectedPlace(fn) # 0 => (Len(args) >= SelectedPlace(fn) /\ is = {args[SelectedPlace(fn)]})
                 \/ fn \in Mutators /\ Len(args) >= 1 /\ is = {args[1]}
   /\ holds # {} => fn \in HolderFns \cup Mutators
 
